@@ -192,8 +192,9 @@ pub fn run(prop: &str, tier: Tier) -> i32 {
         quiet_panics();
         let (cap, max_states) = match tier { Tier::Quick => (40, 400_000), Tier::Thorough => (1200, 5_000_000) };
         rep.extra.insert("engine_seqx".into(), json!("E2 seqx: explicit-state BFS over histories of the real object, deduplicated on internal bookkeeping + reference model"));
-        crate::seqx::run_configs(prop, tier, cfgs, cap, max_states, &mut rep);
+        crate::seqrun::run_configs(prop, tier, cfgs, cap, max_states, &mut rep);
     }
+    if prop == "C05" { run_asan(tier, &mut rep) }
     if !e3.is_empty() {
         let cap = Duration::from_secs(std::env::var("VH_WALL_CAP_S").ok().and_then(|s| s.parse().ok()).unwrap_or(match tier { Tier::Quick => 45, Tier::Thorough => 1500 }));
         let had_e1 = rep.traces > 0;
@@ -206,6 +207,53 @@ pub fn run(prop: &str, tier: Tier) -> i32 {
         }
     }
     finish(rep)
+}
+
+/// C05: the same histories in the AddressSanitizer build (`vha`), one process per configuration
+fn run_asan(tier: Tier, rep: &mut Report) {
+    let bin = std::env::var("VH_ASAN_BIN").unwrap_or_else(|_| format!("{VERIF_DIR}/target-asan/x86_64-unknown-linux-gnu/release/vha"));
+    if !std::path::Path::new(&bin).exists() { rep.engine_errors.push(format!("the sanitizer build {bin} is missing")); return }
+    let names: Vec<String> = crate::c05core::configs(tier == Tier::Thorough).into_iter().map(|c| c.name).collect();
+    let queue = Arc::new(Mutex::new(names.into_iter().collect::<VecDeque<String>>()));
+    let results: Arc<Mutex<Vec<(String, Option<i32>, String, String, String)>>> = Arc::new(Mutex::new(Vec::new()));
+    let mut handles = Vec::new();
+    for w in 0..nworkers() {
+        let (queue, results, bin) = (queue.clone(), results.clone(), bin.clone());
+        let tier_name = tier.name();
+        handles.push(std::thread::spawn(move || loop {
+            let Some(name) = queue.lock().unwrap().pop_front() else { break };
+            let marker = format!("{}/C05-asan-{}-{}.marker", marker_dir(), std::process::id(), w);
+            let out = Command::new(&bin).args(["explore", tier_name, &name, &marker]).env("ASAN_OPTIONS", "detect_leaks=0:abort_on_error=0:exitcode=66").output();
+            let (code, so, se) = match out { Ok(o) => (o.status.code(), String::from_utf8_lossy(&o.stdout).to_string(), String::from_utf8_lossy(&o.stderr).to_string()), Err(e) => (Some(-1), String::new(), format!("cannot run {bin}: {e}")) };
+            let hist = std::fs::read_to_string(&marker).unwrap_or_default().lines().next().unwrap_or("").to_string();
+            let _ = std::fs::remove_file(&marker);
+            results.lock().unwrap().push((name, code, so, se, hist));
+        }));
+    }
+    for h in handles { let _ = h.join(); }
+    let mut per = Vec::new();
+    for (name, code, so, se, hist) in results.lock().unwrap().drain(..) {
+        match code {
+            Some(0) | Some(3) => {
+                let v: Value = so.lines().rev().find(|l| l.starts_with('{')).and_then(|l| serde_json::from_str(l).ok()).unwrap_or(json!({}));
+                rep.states += v["states"].as_u64().unwrap_or(0); rep.transitions += v["transitions"].as_u64().unwrap_or(0); rep.traces += v["replays"].as_u64().unwrap_or(0);
+                if v["capped"].as_bool().unwrap_or(false) { rep.exhaustive = false }
+                per.push(json!({"config": name, "states": v["states"], "histories_replayed": v["replays"], "depth": v["depth"], "capped": v["capped"], "model_disagreements_seen_too": v["model_disagreements"]}));
+            }
+            _ => {
+                // the sanitizer stopped the process (or it crashed): the history being executed is the counterexample
+                let what = se.lines().find(|l| l.contains("AddressSanitizer") || l.contains("ERROR")).unwrap_or("the process died").trim().to_string();
+                let at = se.lines().filter(|l| l.trim_start().starts_with('#')).take(6).map(|l| l.trim().to_string()).collect::<Vec<_>>().join(" | ");
+                let choices: Vec<u64> = hist.trim_matches(|c| c == '[' || c == ']').split(',').filter_map(|x| x.trim().parse().ok()).collect();
+                rep.violations.push(Viol { family: name.clone(), rung: format!("D{}", choices.len()), kind: "sanitizer-report".into(),
+                    detail: format!("memory touched after it was freed (or otherwise invalid) while executing the history with choices {hist} (+ teardown): {what} -- {at}"),
+                    replay: json!({"engine": "asan", "tier": tier.name(), "config": name, "choices": choices}) });
+            }
+        }
+    }
+    per.sort_by_key(|p| p["config"].as_str().unwrap_or("").to_string());
+    rep.extra.insert("asan_configs".into(), Value::Array(per));
+    rep.extra.insert("asan".into(), json!("the same breadth-first search over histories (seqx.rs + c05core.rs) compiled with -Zsanitizer=address; a report aborts the process and is attributed to the history recorded just before"));
 }
 
 pub fn empty_report(prop: &str, tier: Tier, t0: Instant) -> Report {
@@ -450,6 +498,12 @@ pub fn replay(path: &str) -> i32 {
         Some("mcx") => replay_mcx(&v),
         Some("seqx") => replay_seqx(&v),
         Some("c15") => crate::c15::replay(&v, path),
+        Some("asan") => {
+            let bin = std::env::var("VH_ASAN_BIN").unwrap_or_else(|_| format!("{VERIF_DIR}/target-asan/x86_64-unknown-linux-gnu/release/vha"));
+            let choices = v["choices"].as_array().map(|a| a.iter().map(|c| c.as_u64().unwrap_or(0).to_string()).collect::<Vec<_>>().join(",")).unwrap_or_default();
+            let st = Command::new(&bin).args(["replay", v["tier"].as_str().unwrap_or("thorough"), v["config"].as_str().unwrap_or(""), &choices]).env("ASAN_OPTIONS", "detect_leaks=0:exitcode=66").status();
+            match st { Ok(s) if s.success() => { println!("no sanitizer report on this history"); 0 }, Ok(_) => { println!("VIOLATION property=C05 replay=<this file> kind=sanitizer-report"); 1 }, Err(e) => { eprintln!("cannot run {bin}: {e}"); 2 } }
+        }
         Some("asyncx") => {
             let prop = v["prop"].as_str().unwrap_or("");
             let tier = Tier::parse(v["tier"].as_str().unwrap_or("thorough")).unwrap_or(Tier::Thorough);
